@@ -21,6 +21,7 @@ BOUND = {'quick': 'previous contents of 0-2 rows x tables of <= 2 data rows (one
                   'none} x {file name, connection, cursor, cursor factory} x commit {default, True, False} x {todb, appenddb}: '
                   'a core of row counts exhaustive, a seeded sample of 1500 of the full product, plain and quote-laden names',
          'thorough': 'the full product with tables of <= 3 data rows over 3 distinct typed rows, for plain and for quote-laden names'}
+BOUND = {k: v + '; plus 2600-row loads failing at rows 1000, 1001, 2200 and at exhaustion (a batched load must still be one transaction)' for k, v in BOUND.items()}
 
 HANDLES = ['file', 'connection', 'cursor', 'mkcursor']
 COMMITS = [None, True, False]
@@ -219,3 +220,17 @@ def _product(tier, seed):
 
 
 group('db.product', _product)(check_db)
+
+
+def _large(tier, seed):
+    """loads much larger than any plausible batch size: a batched / chunked load must still be one transaction"""
+    n = 2600
+    rows = [(i, 'r%d' % i) for i in range(n)]
+    for op in OPS:
+        for handle in HANDLES:
+            for commit in (None, False):
+                for f in (None, 1000, 1001, 2200, n):
+                    yield (op, handle, commit, NAMES[0], PRIORS[1], rows, f, 'close')
+
+
+group('db.large', _large)(check_db)
